@@ -480,6 +480,37 @@ func c44(c *Ctx) {
 		}
 		c.Expect(n == 1, nil, we, "one-true-return", "expected one true return in watcherExistsForUncachedResource")
 	})
+	c.Ob("failed-before-any-response", "R2", "the stream error is marked 'failed after a response was received' exactly when the receive loop had received a message on this stream: the flag starts false, becomes true only after a successful receive, and is what onError is given; onError converts the error only when the flag is set", 5, func() {
+		rv := c.fn(xdsc, "adsStreamImpl.recv")
+		oe := one(c, "onError call in recv", callsIn(rv, Callee(xdsc, "adsStreamImpl.onError")))
+		rm := one(c, "recvMessage call", callsIn(rv, Callee(xdsc, "adsStreamImpl.recvMessage")))
+		flag, ok := oe.Common().Args[2].(*ssa.Phi)
+		if c.Expect(ok, oe, rv, "received-flag", "onError is not given the loop's received-a-message flag") {
+			rerr := ExtractOf(func(v ssa.Value) bool { return v == rm.Value() }, 4)
+			for i, e := range flag.Edges {
+				pr := flag.Block().Preds[i]
+				fs := append(append([]Fact(nil), FactsAtBlock(pr)...), edgeOnlyFacts(pr, flag.Block())...)
+				switch {
+				case ConstBool(false)(e):
+					c.Expect(pr == rv.Blocks[0] || len(pr.Preds) == 0 || !reachableBlocks(flag.Block())[pr], oe, rv, "flag-starts-false", "the received flag is reset to false inside the loop")
+				case ConstBool(true)(e):
+					_, okRecv := hasFact(fs, IsNil(rerr))
+					c.Expect(okRecv, oe, rv, "flag-set-only-after-a-successful-receive", "the received flag is set on an arm where no message was received")
+				default:
+					c.Expect(e == ssa.Value(flag), oe, rv, "flag-shape", "unexpected update of the received flag")
+				}
+			}
+			// a successful receive always sets it before the next receive
+			c.MustFact(oe, "error-reported-only-on-receive-failure", NotNil(rerr))
+		}
+		of := c.fn(xdsc, "adsStreamImpl.onError")
+		for _, ne := range callsIn(of, Callee(xdscRes, "NewError")) {
+			if ConstOfObj(c.konst(xdscRes, "ErrTypeStreamFailedAfterRecv"))(ne.Common().Args[0]) {
+				c.MustFact(ne, "after-recv-error-only-with-flag", Truth(ParamV("msgReceived"), true))
+			}
+		}
+		c.Expect(len(callsIn(of, Callee(xdscRes, "NewError"))) >= 1, nil, of, "after-recv-error-built", "onError never builds the failed-after-receive error")
+	})
 	c.Ob("fallback-step", "R2", "fallbackToServer: false when the channel exists or cannot be created; on success records channel+cleanup, becomes active, subscribes every known resource and records the channel in its state", 6, func() {
 		ff := c.fn(xdsc, au+".fallbackToServer")
 		get := one(c, "getChannelForADS call", callsIn(ff, FieldCall(c.field(xdsc, au, "getChannelForADS"))))
